@@ -238,7 +238,7 @@ func init() {
 			"payload sizes restricted to the boundary set S(B) of DESIGN.md §3; sequences of at most 2 (quick) / 3 (thorough) messages",
 			"transport is the scripted in-memory netsim.Conn",
 		},
-		Budget:    map[string]time.Duration{"quick": 100 * time.Second, "thorough": 40 * time.Minute},
+		Budget:    map[string]time.Duration{"quick": 150 * time.Second, "thorough": 40 * time.Minute},
 		Bound:     map[string]string{"quick": "deviations <= 2, <= 2 messages, levels {1,0,-2,9}", "thorough": "deviations <= 2 over the whole product with full value sets (<= 3 messages, levels -2..9, sizes 65535..65537, B up to 70000) and <= 3 on a sub-lattice (B in {125,300}, every fourth boundary size)"},
 		Scenarios: func(tier string) []*explore.Scenario { return wScenarios("c01", tier, c01Body) },
 	})
